@@ -4,13 +4,13 @@ from ._core_common import *  # noqa
 PROP = "C06"
 SCHEDULERS = ("eager",)
 OPTS = dict(alias=False, combiner=False, fsm=True, nested_methods=True, p_fresh=0.96, witness=True)
-BOUNDS = {"quick": "40 batches x 8 random designs with witnesses at every program point (nesting <= 2, nested transactions and methods)", "thorough": "300 batches x 20 designs"}
+BOUNDS = {"quick": "40 batches x 8 random designs with witnesses at every program point (nesting <= 2, nested transactions and methods)", "thorough": "900 batches x 20 designs"}
 OUTSIDE = OUTSIDE_COMMON
 ASSUMES = ASSUMES_COMMON
 
 
 def configs(tier, seed):
-    return batch_configs(tier, seed, 40, 300, 8 if tier == "quick" else 20, OPTS, SCHEDULERS)
+    return batch_configs(tier, seed, 40, 900, 8 if tier == "quick" else 20, OPTS, SCHEDULERS)
 
 
 def run(cfg, ctx):
